@@ -245,15 +245,16 @@ func (a *BigInt) M__truediv__(other Object) (Object, error) {
 	if bi, ok := ConvertToBigInt(other); ok {
 		return intTrueDiv((*big.Int)(a), (*big.Int)(bi))
 	}
-	b, err := MakeFloat(other)
-	if err != nil {
-		return nil, err
+	b, ok := other.(Float)
+	if !ok {
+		// not a number this type divides by: the other operand may know
+		return NotImplemented, nil
 	}
 	fa, err := a.Float()
 	if err != nil {
 		return nil, err
 	}
-	fb := b.(Float)
+	fb := b
 	if fb == 0 {
 		return nil, divisionByZero()
 	}
@@ -264,15 +265,16 @@ func (a *BigInt) M__rtruediv__(other Object) (Object, error) {
 	if bi, ok := ConvertToBigInt(other); ok {
 		return intTrueDiv((*big.Int)(bi), (*big.Int)(a))
 	}
-	b, err := MakeFloat(other)
-	if err != nil {
-		return nil, err
+	b, ok := other.(Float)
+	if !ok {
+		// not a number this type divides by: the other operand may know
+		return NotImplemented, nil
 	}
 	fa, err := a.Float()
 	if err != nil {
 		return nil, err
 	}
-	fb := b.(Float)
+	fb := b
 	if fa == 0 {
 		return nil, divisionByZero()
 	}
